@@ -17,6 +17,7 @@ import (
 //
 //verif:replace os.Getenv verifGetenv
 //verif:replace io/ioutil.ReadFile verifReadCfg
+//verif:replace os.ReadFile verifReadCfg
 //verif:replace gopkg.in/yaml.v2.Unmarshal verifYAML
 //verif:replace flag.StringVar verifStringVar
 //verif:replace flag.IntVar verifIntVar
